@@ -82,7 +82,7 @@ def handlePipeline (fs : List String) : String :=
     let E : Rx.Env := { wordChars := decStr wc, spaceChars := decStr sc }
     let start := if mode = "eval" then Gen.evalId else Gen.fileId
     match Pipe.parseString E genPats (genTables start) (nat fuel) (decStr src) with
-    | .tokenizerError e => s!"tokenizer-error {encErr e}"
+    | .tokenizerError e a => s!"tokenizer-error {encErr e} assumed={a}"
     | .parsed o s1 => s!"{encOutcome o} pos={s1.pos} fetched={s1.fetched} peeks={s1.peeks} nexts={s1.nexts} resets={s1.resets} assumed={s1.assumed}"
   | _ => "bad-request"
 
